@@ -23,7 +23,7 @@ NOT_COVERED = ["strategy='update' with horizon-dependent forecasters (direct/mul
                "horizon per fold, which these forecasters reject after the first fold", "fit_params"]
 ASSUMPTIONS = ["splits are taken from the splitter itself (their correctness is C01's business)"]
 JOBS = {"quick": 4, "thorough": 16}
-METRICS = [None, "mape", "asym", "asym_fn", "mse", "smape", "neg_mae", "neg_asym"]    # the last two: user-made scorers declared greater-is-better
+METRICS = [None, "mape", "asym", "asym_fn", "mse", "smape", "neg_mae", "neg_asym", "rmspe", "mdspe"]    # the last two: user-made scorers declared greater-is-better
 FORECASTERS = [
     ["spy-naive", {"strategy": "last"}], ["spy-naive", {"strategy": "mean", "window_length": 4}], ["spy-poly", {"degree": 1}],
     ["naive", {"strategy": "drift"}], ["naive", {"strategy": "last", "sp": 3}], ["poly", {"degree": 2}],
@@ -132,7 +132,7 @@ def run_case(case, ctx):
                 else:
                     g.update(y_tr.copy(), None if X_tr is None else X_tr.copy())
                 y_pred = g.predict(fh, X=None if X_te is None else X_te.copy())
-                ref_rows.append({"score": float(metric(y_te, y_pred)), "cutoff": y_tr.index[-1], "len": len(tr), "y_pred": y_pred,
+                ref_rows.append({"score": float((zoo.metric_reference(case["scoring"]) or metric)(y_te, y_pred)), "cutoff": y_tr.index[-1], "len": len(tr), "y_pred": y_pred,
                                  "y_train": y_tr, "y_test": y_te})
         finally:
             spies.drop(lid2)
